@@ -75,3 +75,36 @@ def _has_epoch_ms0(o):
 @matcher("F20_epoch_ms0_not_converted")
 def _f20(v):
     return v["oracle"] == "C20.roundtrip_failed_or_ill_typed" and v["case"].get("variant") == "jback" and _has_epoch_ms0(v["case"].get("obj"))
+
+
+def _script_has_failing_wfc(script):
+    for st in script:
+        if st["op"] == "wfc" and any("err" in o for o in st["check"]):
+            return True
+        if st["op"] == "child" and _script_has_failing_wfc(st["body"]):
+            return True
+    return False
+
+
+def _f2_rewrite(s):
+    import re
+    return re.sub(r"E:([A-Za-z]+):([^:|]*):-", lambda m: m.group(0) if m.group(1) in ("CallableRuntimeError", "CallbackError", "StepInterruptedError", "ExecutionError")
+                  else f"E:CallableRuntimeError:{m.group(2)}:{m.group(1)}", s)
+
+
+@matcher("F2_wfc_first_failure_reraises_original")
+def _f2(v):
+    if v["oracle"] not in ("C02.observation_changed_on_replay", "C02.final_outcome_depends_on_interruptions", "C16.replayed_result_differs"):
+        return False
+    if not _script_has_failing_wfc(v["case"].get("script", [])):
+        return False
+    d = v["detail"]
+    a, b = d.get("first", {}).get("outcome"), d.get("later", {}).get("outcome")
+    if a is None or b is None:
+        return False
+    if "err" in a and "err" in b:
+        same_type = b["err"]["etype"] == a["err"]["cls"] or (v["oracle"] == "C02.final_outcome_depends_on_interruptions" and b["err"]["etype"] is None)
+        return b["err"]["cls"] == "CallableRuntimeError" and a["err"]["cls"] != "CallableRuntimeError" and same_type and b["err"]["msg"] == a["err"]["msg"]
+    if "ok" in a and "ok" in b and isinstance(a["ok"], str) and isinstance(b["ok"], str):
+        return _f2_rewrite(a["ok"]) == b["ok"] or _f2_rewrite(a["ok"])[:8] == b["ok"][:8] and "#" in b["ok"]
+    return False
